@@ -47,10 +47,6 @@ pub fn install_panic_hook() {
         PANICS.with(|p| p.borrow_mut().push(msg));
     }));
     install_crash_oracle();
-    // governor's default clock (quanta) calibrates its cycle counter against the monotonic clock
-    // on first use, by spinning until enough time has passed: that must happen here, on real
-    // time, not on a simulation thread whose monotonic clock only moves with the simulation
-    let _ = governor::clock::Clock::now(&governor::clock::QuantaClock::default());
 }
 
 // ---------------------------------------------------------------------------------------------
